@@ -2,6 +2,7 @@
 //! Every sub-command reads TLC-generated vectors (ndjson) and/or draws seeded inputs, drives the
 //! real library, and writes ndjson records that TLC trace specifications evaluate.
 
+mod crammod;
 mod diffmod;
 mod mdmod;
 mod rulesmod;
@@ -16,6 +17,7 @@ fn main() {
         "diff-probe" => diffmod::probe(&args),
         "rules-replay" => rulesmod::replay(&args),
         "md-replay" => mdmod::replay(&args),
+        "cram-replay" => crammod::replay(&args),
         _ => util::tool_error(&format!("unknown sub-command `{cmd}`")),
     }
 }
